@@ -3,7 +3,7 @@
 import numpy as np
 
 from . import core
-from . import t_reduce, t_shape, t_linalg, t_methods  # noqa: F401  (fill core.TEMPLATES)
+from . import t_reduce, t_shape, t_linalg, t_methods, t_helpers  # noqa: F401  (fill core.TEMPLATES)
 
 import unyt
 from unyt import unyt_array, unyt_quantity
